@@ -7,9 +7,11 @@ for id in $IDS; do
   for d in seeded/$id-*; do
     [ -f "$d/patch.diff" ] || continue
     git -C /repo apply "$(pwd)/$d/patch.diff" || { echo "$d: patch does not apply"; continue; }
-    OUT=$(./run.sh "$id" quick 2>&1); RC=$?
+    # a change that breaks another property than the one it was written for names that check in its meta.json
+    run=$(python3 -c "import json;print(json.load(open('$d/meta.json')).get('caught_by_other_check',{}).get('check','$id'))" 2>/dev/null || echo "$id")
+    OUT=$(./run.sh "$run" quick 2>&1); RC=$?
     git -C /repo checkout -- . ; git -C /repo clean -fdq -e pkg/curl/asm/asm
-    if [ $RC -eq 1 ] && echo "$OUT" | grep -q "^VIOLATION property=$id"; then
+    if [ $RC -eq 1 ] && echo "$OUT" | grep -q "^VIOLATION property=$run"; then
       echo "$d CAUGHT $(echo "$OUT" | grep -m1 'key=' | cut -c1-160)"
     else
       echo "$d MISSED exit=$RC $(echo "$OUT" | tail -1 | cut -c1-200)"
